@@ -492,6 +492,13 @@ def dstepCore (st : DState) (line : String) : DState × Option String :=
       let (c, r) := Dkg.onContribute st.cluster i (callerId st.cluster caller) acct false 1
       ({ st with cluster := c }, some r.toStr)
     | _, _, _ => bad st line
+  | ["hcontributev", i, asker, acct] =>
+    match i.toNat?, asker.toNat?, unhexStr acct with
+    | some i, some asker, some acct =>
+      -- a VALID contribution from participant `asker` (vector of the length the harness's scratch generation uses: n/2+1)
+      let (c, r) := Dkg.onContribute st.cluster i asker acct true (st.cluster.peers.length / 2 + 1)
+      ({ st with cluster := c }, some r.toStr)
+    | _, _, _ => bad st line
   -- C14: a request to instance i's own signer (own rules store); the distributed account is known to
   -- every instance under its name, keyed by the instance's own share (abstracted to the instance id)
   | ["iatt", i, acct, d] =>
